@@ -151,6 +151,27 @@ def mutate_in_place(dataset, ds, r):
     return kind, st == "ok"
 
 
+PICKLED = {}
+
+
+def pickled_batch(ctx):
+    """once per shard: ten string-named datasets built and pickled by another interpreter (another hash seed), loaded here
+    -- what a results file of an earlier run or an argument sent to a spawned worker is.  List of (raw, Dataset)."""
+    if "batch" not in PICKLED:
+        import random
+        rng = random.Random(f"pickled/{ctx.spec.get('seed')}/{ctx.spec.get('shard')}")
+        raws = []
+        for _ in range(10):
+            _k, names = gen.element_names(rng, rng.randint(3, 6), rng.choice(["str", "str", "mixed_str", "digits_plus_word"]))
+            _c, ds = gen.dataset(rng, classes="D2 D3 D3 D9 D11", names=names, n=len(names), mmax=5, outlier=0)
+            raws.append(libx.normalise_raw(ds))
+        other = (int(ctx.spec.get("hashseed", 0)) + 7) % 100 + 1
+        loaded = libx.pickled_elsewhere(raws, other, ctx.spec["repo"])
+        PICKLED["batch"] = [(r, d) for r, d in zip(raws, loaded) if d is not None] if loaded else []
+        ctx.count("pickled_batches_loaded" if loaded else "pickled_batches_failed")
+    return PICKLED["batch"]
+
+
 def refusal_is_documented(cfg, exc, ds_complete, one):
     """a documented refusal (the algorithm does not accept this input)"""
     from corankco.algorithms.exact.exactalgorithmbase import IncompatibleArgumentsException
